@@ -70,7 +70,12 @@ class Associate(Block):
             # now pass the keywords through the dimension_parser and set the keywords
             # in the associate object. Hover should now pick the local keywords
             # over the linked_object keywords
-            assoc.link_name = re.sub(r"\(.*\)", "", assoc.link_name)
+            # Innermost groups first, a single greedy match would remove `%b`
+            # together with the subscripts of `a(i)%b(j)`
+            link_name, nsub = re.subn(r"\([^()]*\)", "", assoc.link_name)
+            while nsub:
+                link_name, nsub = re.subn(r"\([^()]*\)", "", link_name)
+            assoc.link_name = link_name
             assoc.var.link_obj = None
             var_stack = get_var_stack(assoc.link_name)
             is_member = len(var_stack) > 1
